@@ -106,21 +106,26 @@ def section(ctx):
                 excl = n.test.args[0].value
     ctx.emit(f'def localListExcludes : String := {json.dumps(excl)}' if excl is not None else 'opaque localListExcludes : String')
 
-    def shape(fn, body_ok, handler):
+    def shape(fn, writes):
+        """try: … <write into temp> … ; temp.replace(destination)  except: … temp.unlink(missing_ok=True) … ; raise
+        (other statements such as logging are tolerated; the replace must be the last statement of the try body, after the write)"""
         if fn is None:
             return False
         tries = [s for s in fn.body if isinstance(s, ast.Try)]
-        if len(tries) != 1 or un(fn.body[0]) != 'destination, temp = self._destination_temp(name)':
+        if len(tries) != 1 or 'destination, temp = self._destination_temp(name)' not in [un(x) for x in fn.body]:
             return False
         t = tries[0]
         body = [un(x) for x in t.body]
-        return (body_ok(body) and body[-1] == 'temp.replace(destination)' and len(t.handlers) == 1 and t.handlers[0].type is None
-                and [un(x) for x in t.handlers[0].body] == handler)
-    up = shape(ctx.find_func(ltree, 'Local', 'upload'), lambda b: b[:-1] == ['temp.write_bytes(data)'],
-               ['temp.unlink(missing_ok=True)', 'raise'])
+        w = [i for i, x in enumerate(body) if writes(x)]
+        if not w or body[-1] != 'temp.replace(destination)' or len(t.handlers) != 1 or t.handlers[0].type is not None:
+            return False
+        if any('destination' in x for x in body[:-1]):      # nothing touches the destination before the replace
+            return False
+        h = [un(x) for x in t.handlers[0].body]
+        return 'temp.unlink(missing_ok=True)' in h and h[-1] == 'raise'
+    up = shape(ctx.find_func(ltree, 'Local', 'upload'), lambda x: x == 'temp.write_bytes(data)')
     ups = shape(ctx.find_func(ltree, 'Local', 'upload_stream'),
-                lambda b: len(b) == 2 and b[0].startswith("with temp.open('wb') as file:") and 'shutil.copyfileobj(stream, file, length=chunk_size)' in b[0],
-                ['temp.unlink(missing_ok=True)', 'stream.seek(0)', 'raise'])
+                lambda x: x.startswith("with temp.open('wb') as file:") and 'shutil.copyfileobj(stream, file, length=chunk_size)' in x)
     if not (up and ups):
         ctx.notes['crash.local'] = f'local upload shape not recognised (upload={up}, upload_stream={ups})'
     ctx.emit(f'def localUploadShape : Bool := {"true" if (up and ups) else "false"}')
